@@ -168,6 +168,10 @@ class CallMixin(object):
             if fv.func is None or not isinstance(fv.func, types.FunctionType):
                 return self.call_method_builtin(st, fv.selfv, fv.name, args, kwargs, line)
             return self.call_function(st, fv.func, [fv.selfv] + args, kwargs, line=line)
+        if isinstance(fv, PyObj) and isinstance(fv.o, tuple) and fv.o and fv.o[0] == 'classchoice':
+            _, cnd, ca, cb = fv.o
+            return self.branch(st, cnd, lambda s2: self.call_value(s2, ca, list(args), dict(kwargs), line),
+                               lambda s2: self.call_value(s2, cb, list(args), dict(kwargs), line))
         if isinstance(fv, PyObj):
             o = fv.o
             from .cruntime import CFunction
@@ -876,10 +880,10 @@ class CallMixin(object):
             new_inner = z3.Store(z3.Select(el, r), self.list_off(st, r) + n, hv.t)
             if hv.hint is not None and hv.hint.kind == 'str' and not hv.hint.opt:
                 # defining equation of ''.join at an append:  ''.join(L + [x]) == ''.join(L) + x
-                ujoin = self.get_uf('str_join', StrS, z3.ArraySort(IntS, Val), IntS, StrS)
+                ujoin = self.get_uf('str_join', StrS, z3.ArraySort(IntS, Val), IntS, IntS, StrS)
                 e0 = z3.StringVal('')
-                self.assume(st, z3.Implies(self.list_off(st, r) == 0,
-                                           ujoin(e0, new_inner, n + 1) == z3.Concat(ujoin(e0, z3.Select(el, r), n), Val.s(hv.t))))
+                off0 = self.list_off(st, r)
+                self.assume(st, ujoin(e0, new_inner, off0, n + 1) == z3.Concat(ujoin(e0, z3.Select(el, r), off0, n), Val.s(hv.t)))
             st.heap['$ELEM'] = z3.Store(el, r, new_inner)
             st.heap['$LEN'] = z3.Store(self.harr(st, '$LEN'), r, n + 1)
             return self.lift(None)
@@ -1153,12 +1157,10 @@ class CallMixin(object):
                 parts.append(Val.s(it.t))
             return V(mkS(self.concat(parts)), parse_spec('str'))
         if isinstance(seq, V):
-            uf = self.get_uf('str_join', StrS, z3.ArraySort(IntS, Val), IntS, StrS)
-            self.trust('str.join over a symbolic list: uninterpreted function of (sep, elements, length)')
+            uf = self.get_uf('str_join', StrS, z3.ArraySort(IntS, Val), IntS, IntS, StrS)
+            self.trust('str.join over a symbolic list: uninterpreted function of (sep, elements, window offset, length)')
             r = Val.r(seq.t)
-            self.oblige(st, 'join.not_a_window@%d' % line, self.list_off(st, r) == 0,
-                        'str.join is modelled for lists that are not windows (slices / pop(0)) only')
-            res = uf(Val.s(sep.t), z3.Select(self.harr(st, '$ELEM'), r), self.list_len(st, r))
+            res = uf(Val.s(sep.t), z3.Select(self.harr(st, '$ELEM'), r), self.list_off(st, r), self.list_len(st, r))
             self.assume(st, z3.Implies(self.list_len(st, r) == 0, res == z3.StringVal('')))
             return V(mkS(res), parse_spec('str'))
         if isinstance(seq, PyObj) and isinstance(seq.o, tuple) and seq.o and seq.o[0] == 'dictview':
